@@ -14,6 +14,16 @@ import (
 func Sched(t *simkit.Tape, o *simkit.Outcome, full bool) {
 	const P = "C14"
 	s := Gen(t, true)
+	var stdin []byte
+	if t.Bool(1, 8) {
+		// one input comes from stdin (its worker reads os.Stdin concurrently with the file workers)
+		kind := []string{"xml", "html", "json"}[t.Draw(3)]
+		stdin = genContent(t, kind)
+		s.T = kind
+		pos := t.Draw(len(s.Args) + 1)
+		s.Args = append(s.Args[:pos:pos], append([]string{"-"}, s.Args[pos:]...)...)
+		o.Probe("stdin-input")
+	}
 	work, err := WorkDir(o.Index)
 	if err != nil {
 		o.HarnessDoubt("scratch: %v", err)
@@ -43,16 +53,23 @@ func Sched(t *simkit.Tape, o *simkit.Outcome, full bool) {
 	single := *s
 	blocks := map[string]string{}
 	var processed []string
-	refRun, rerr := RunSim(work, tree, s.Argv(1), nil, nil, 2, 0)
+	refRun, rerr := RunSim(work, tree, s.Argv(1), stdin, nil, 2, 0)
 	if rerr != nil || refRun.ExitErr != "" || refRun.Res.End != "main-exit" {
 		o.HarnessDoubt("reference run (-c 1) did not end normally: %v %v", rerr, refRun)
 		return
 	}
 	o.Evals++
+	if stdin != nil {
+		files = append(files, "-")
+	}
 	for _, f := range files {
 		single.Args = []string{f}
 		single.R = false
-		r, e := RunSim(work, tree, single.Argv(1), nil, nil, 2, 0)
+		var in []byte
+		if f == "-" {
+			in = stdin
+		}
+		r, e := RunSim(work, tree, single.Argv(1), in, nil, 2, 0)
 		o.Evals++
 		if e != nil || r.ExitErr != "" || r.Res.End != "main-exit" {
 			o.HarnessDoubt("per-file reference run did not end normally: %v", e)
@@ -64,6 +81,10 @@ func Sched(t *simkit.Tape, o *simkit.Outcome, full bool) {
 	// files below directory arguments when -r is given: decide from the -c 1
 	// whole-set output by matching blocks (each file at most as often as listed).
 	for _, a := range s.Args {
+		if a == "-" {
+			processed = append(processed, "-")
+			continue
+		}
 		st, e := os.Lstat(filepath.Join(tree, a))
 		if e != nil {
 			continue
@@ -114,7 +135,7 @@ func Sched(t *simkit.Tape, o *simkit.Outcome, full bool) {
 		}
 		strategy := t.Pick(4, 3, 2, 2)
 		depth := 1 + t.Draw(3)
-		r, e := RunSim(work, tree, s.Argv(s.C), nil, words, strategy, depth)
+		r, e := RunSim(work, tree, s.Argv(s.C), stdin, words, strategy, depth)
 		o.Evals++
 		if e != nil {
 			o.HarnessDoubt("sim run: %v", e)
